@@ -163,7 +163,7 @@ struct Outcome {
 
 /// One assembly of symbolic kind through the public API. `expect_pn`/`expect_la`: the harness's
 /// bookkeeping of the next unused number and of largest_acked.
-fn one_assembly(arc: &ArcSentJournal<u64>, expect_pn: u64, expect_la: u64, next_tag: u64) -> Outcome {
+fn one_assembly<const KMAX: usize>(arc: &ArcSentJournal<u64>, expect_pn: u64, expect_la: u64, next_tag: u64) -> Outcome {
     let kind: u8 = kani::any();
     kani::assume(kind <= ABANDON);
     let mut g = arc.new_packet();
@@ -173,10 +173,10 @@ fn one_assembly(arc: &ArcSentJournal<u64>, expect_pn: u64, expect_la: u64, next_
     match kind {
         BUILD_WITH_TIME => {
             let k: usize = kani::any();
-            kani::assume(k <= 2);
+            kani::assume(k <= KMAX);
             let trivial: bool = kani::any();
             let mut f = 0;
-            while f < 2 {
+            while f < KMAX {
                 if f < k {
                     g.record_frame(next_tag + f as u64);
                 }
@@ -186,9 +186,8 @@ fn one_assembly(arc: &ArcSentJournal<u64>, expect_pn: u64, expect_la: u64, next_
                 g.record_trivial();
             }
             assert!(g.pn().0 == pn, "pn() is stable while the packet is assembled");
-            let retran_ms: u16 = kani::any();
-            let expire_ms: u16 = kani::any();
-            g.build_with_time(Duration::from_millis(retran_ms as u64), Duration::from_millis(expire_ms as u64));
+            // timeouts are irrelevant to C07 (C10/C13's subject): concrete, no symbolic division
+            g.build_with_time(Duration::from_secs(1), Duration::from_secs(3));
             Outcome { pn, built: k > 0 || trivial, frames: k }
         }
         BUILD_TRIVIAL => {
@@ -268,7 +267,7 @@ fn kind_of(s: &SentPktState) -> u8 {
 }
 
 // ---- c07_j_sent_seq ---------------------------------------------------------------------------
-fn seq_steps<const N: usize, const S: usize>() {
+fn seq_steps<const N: usize, const S: usize, const KMAX: usize>() {
     let (j, pre) = any_journal::<N>(None, false);
     // PacketNumber::encode's documented precondition (pn - largest_acked < 2^31) for every number
     // this sequence can hand out
@@ -280,7 +279,7 @@ fn seq_steps<const N: usize, const S: usize>() {
     let mut tag = TAG0 + pre.total as u64;
     let mut i = 0;
     while i < S {
-        let o = one_assembly(&arc, next_pn, pre.la, tag);
+        let o = one_assembly::<KMAX>(&arc, next_pn, pre.la, tag);
         if o.built {
             next_pn += 1;
         }
@@ -313,11 +312,9 @@ fn seq_steps<const N: usize, const S: usize>() {
     let g = arc.0.try_lock().unwrap();
     check_post(&g, &pre, &outs);
     core::mem::forget(g);
-    kani::cover!(outs[0].built && outs[0].frames == 0, "trivial packet consumed a number");
-    kani::cover!(outs[0].built && outs[0].frames == 2 && !outs[S - 1].built, "frames recorded, later assembly abandoned");
-    kani::cover!(!outs[0].built && outs[S - 1].built && outs[S - 1].pn == outs[0].pn, "abandoned number reissued to the next packet");
-    kani::cover!(next_pn == pre.off + (N + S) as u64, "every assembly built a packet");
-    kani::cover!(N > 0 || pre.off > (1u64 << 60), "large window offset");
+    kani::cover!(outs[0].built && outs[0].frames == 0 && outs[S - 1].built, "trivial packet consumed a number, another packet follows");
+    kani::cover!(outs[0].built && outs[0].frames == KMAX && !outs[S - 1].built, "frames recorded, later assembly abandoned");
+    kani::cover!(!outs[0].built && outs[S - 1].built && outs[S - 1].pn == outs[0].pn && pre.off > (1u64 << 60), "abandoned number reissued to the next packet, large window offset");
     core::mem::forget(arc);
 }
 
@@ -326,7 +323,7 @@ fn seq_steps<const N: usize, const S: usize>() {
 #[kani::stub(std::sync::Mutex::lock, stub_mutex_lock)]
 #[kani::stub(tokio::time::Instant::now, stub_now)]
 fn c07_j_sent_seq_n0_s2() {
-    seq_steps::<0, 2>();
+    seq_steps::<0, 2, 2>();
 }
 
 #[kani::proof]
@@ -334,7 +331,7 @@ fn c07_j_sent_seq_n0_s2() {
 #[kani::stub(std::sync::Mutex::lock, stub_mutex_lock)]
 #[kani::stub(tokio::time::Instant::now, stub_now)]
 fn c07_j_sent_seq_n2_s2() {
-    seq_steps::<2, 2>();
+    seq_steps::<2, 2, 1>();
 }
 
 #[kani::proof]
@@ -342,7 +339,7 @@ fn c07_j_sent_seq_n2_s2() {
 #[kani::stub(std::sync::Mutex::lock, stub_mutex_lock)]
 #[kani::stub(tokio::time::Instant::now, stub_now)]
 fn c07_j_sent_seq_n3_s2() {
-    seq_steps::<3, 2>();
+    seq_steps::<3, 2, 2>();
 }
 
 #[kani::proof]
@@ -350,13 +347,13 @@ fn c07_j_sent_seq_n3_s2() {
 #[kani::stub(std::sync::Mutex::lock, stub_mutex_lock)]
 #[kani::stub(tokio::time::Instant::now, stub_now)]
 fn c07_j_sent_seq_n1_s3() {
-    seq_steps::<1, 3>();
+    seq_steps::<1, 3, 1>();
 }
 
 // ---- c07_j_sent_ack_between -------------------------------------------------------------------
 /// packet A; ACK arrival through the real SentRotateGuard (update_largest with a symbolic Largest
-/// Acknowledged, on_packet_acked / may_loss_packet of the first records, drop => resize, which may
-/// drain the whole window); packet B: B's number is A's + 1 (resp. A's, if A was abandoned) whatever
+/// Acknowledged, drop => resize, which may drain the whole window; which frames are fed back is C10's
+/// subject); packet B: B's number is A's + 1 (resp. A's, if A was abandoned) whatever
 /// was drained, and B is encoded against the updated largest_acked.
 /// Window offset concrete (OFF): record accesses by packet number at a symbolic offset are what makes
 /// CBMC explode (journal_sent.rs); the offset arithmetic at full width is c07_j_sent_seq_*'s subject.
@@ -370,7 +367,7 @@ fn ack_between<const N: usize>() {
     unsafe { NOW_SECS = now };
     let arc = ArcSentJournal(Arc::new(Mutex::new(j)));
     let first = pre.off + N as u64;
-    let a = one_assembly(&arc, first, pre.la, TAG0 + pre.total as u64);
+    let a = one_assembly::<1>(&arc, first, pre.la, TAG0 + pre.total as u64);
     let next = if a.built { first + 1 } else { first };
 
     let largest: u64 = kani::any();
@@ -399,15 +396,6 @@ fn ack_between<const N: usize>() {
         }
         if ok {
             assert!(largest <= next, "an accepted ACK never names a number beyond the next unused one");
-            let mut acked = 0;
-            for _f in guard.on_packet_acked(OFF) {
-                acked += 1;
-            }
-            let mut lost = 0;
-            for _f in guard.may_loss_packet(OFF + 1) {
-                lost += 1;
-            }
-            kani::cover!(acked + lost > 0, "frames fed back by the ACK");
         }
         kani::cover!(!ok, "ACK refused");
         // guard dropped: resize() forgets the leading records that need not remain
@@ -416,16 +404,14 @@ fn ack_between<const N: usize>() {
         let g = arc.0.try_lock().unwrap();
         let r = (g.sent_packets.offset(), g.sent_packets.len());
         assert!(g.largest_acked_pktno == la, "largest acked only grows, only on accepted frames");
-        core::mem::forget(g);
+        drop(g);
         r
     };
     assert!(off_after + len_after as u64 == next, "draining the window never moves the next number");
     assert!(off_after >= OFF);
-    let b = one_assembly(&arc, next, la, TAG0 + 500);
+    let b = one_assembly::<1>(&arc, next, la, TAG0 + 500);
     assert!(b.pn >= a.pn && (!a.built || b.pn == a.pn + 1), "no number is handed out again after the window was drained");
-    kani::cover!(len_after == 0 && a.built && b.built, "window completely drained between two built packets");
-    kani::cover!(len_after == 0 && off_after > OFF, "window drained to empty");
-    kani::cover!(la > pre.la && b.built, "packet encoded against the updated largest_acked");
+    kani::cover!(len_after == 0 && a.built && b.built && la > pre.la, "window completely drained between two built packets, largest_acked updated");
     core::mem::forget(arc);
 }
 
